@@ -173,6 +173,15 @@ func wrap(d int, f func()) {
 	wrap(d-1, f)
 }
 
+// duringPanic runs f as a deferred call while a panic unwinds (and swallows the panic).
+//
+//go:noinline
+func duringPanic(f func()) {
+	defer func() { _ = recover() }()
+	defer f()
+	panic("c15: unwinding")
+}
+
 //go:noinline
 func deep(n int, f func()) {
 	if n <= 0 {
@@ -380,7 +389,23 @@ func Run(r *ev.Run) {
 		}
 		msg := fmt.Sprintf("m%d", i)
 		lastMark = nil
-		pn := ev.Guard(func() { deep(extra, func() { wrap(d, func() { f.call(l, lvl, msg) }) }) })
+		// one case in eight logs from a deferred call while a panic unwinds: the runtime's own frames
+		// then sit in the middle of the call chain, not only at its end
+		unwinding := g.P(1, 8)
+		pn := ev.Guard(func() {
+			deep(extra, func() {
+				wrap(d, func() {
+					if unwinding {
+						duringPanic(func() { f.call(l, lvl, msg) })
+						return
+					}
+					f.call(l, lvl, msg)
+				})
+			})
+		})
+		if unwinding {
+			r.Count("calls_from_a_deferred_function_during_a_panic", 1)
+		}
 		r.Eval(1)
 		r.SetAdd("methods", f.name)
 		depthClass := "shallow"
